@@ -9,8 +9,8 @@ BOUNDS = {
              "symbolic; SPIKE symmetry+identity+finiteness+non-negativity: 0..2 spikes each (n1+n2 <= 3 with symbolic MRTS); SPIKE upper bound <= 1: RI "
              "variant 0..2 spikes each, plain variant n1+n2 <= 3; py and pyx; whole recording and (ISI, sync) a symbolic "
              "sub-interval at n1+n2 <= 3",
-    "thorough": "ISI/sync/order: 3+3; SPIKE equalities 3+2; SPIKE upper bound plain variant attempted at 2+2 "
-                "(undecided sizes are reported as inconclusive, never as passed)",
+    "thorough": "ISI/sync/order: 3+3; SPIKE equalities n1+n2 <= 4 (3+1, 2+2 with symbolic MRTS); SPIKE upper bound: RI "
+                "variant n1+n2 <= 4, plain variant <= 4 (<= 3 with symbolic MRTS)",
 }
 OUTSIDE = "larger trains; the SPIKE bound S <= 1 beyond the stated sizes (non-linear real arithmetic limit of the solver)"
 ASSUMPTIONS = ["fork mode for SPIKE (pure polynomial paths)", "identity uses an equal copy (a.copy()) and the same object"]
@@ -36,7 +36,7 @@ def configs(tier):
         ns = 2 if q else 3
         for n1 in range(ns + 1):
             for n2 in range(ns + 1):
-                if n1 + n2 > 5:
+                if n1 + n2 > 4:
                     continue
                 for ri in (0, 1):
                     for mk in ("omit", "sym"):
